@@ -44,6 +44,9 @@ RECURSIVE Resolved(_, _, _)
 Resolved(r, i, t) ==
   IF t.k = "dynamic" THEN (HasDyn(r) => HasDyn(i))
   ELSE CASE t.k \in CollKinds /\ i.k \in CollKinds /\ r.k \in CollKinds -> Resolved(r.e, i.e, t.e)
+         \* a tuple whose elements all have one type, converted to a list / set: that element type resolves the target's placeholders
+         [] t.k \in {"list", "set"} /\ i.k = "tuple" /\ r.k \in {"list", "set"} /\ Len(i.es) > 0 /\ (\A k \in 1..Len(i.es) : TEquals(i.es[k], i.es[1])) ->
+               Resolved(r.e, i.es[1], t.e)
          [] t.k = "tuple" /\ i.k = "tuple" /\ r.k = "tuple" /\ Len(t.es) = Len(i.es) /\ Len(r.es) = Len(t.es) ->
                \A k \in 1..Len(t.es) : Resolved(r.es[k], i.es[k], t.es[k])
          [] t.k = "object" /\ i.k = "object" /\ r.k = "object" ->
